@@ -92,7 +92,7 @@ Qed.
 
 (* ---- the native operations a host at node i issues: creations at i, gates and measurements; never a send ---------------- *)
 Definition own_op (i : nat) (o : op) : bool :=
-  match o with ONew n => Nat.eqb n i | OSend _ _ => false | _ => true end.
+  match o with ONew n => Nat.eqb n i | OSend _ _ | ONewReg _ _ | ONewInReg _ _ _ => false | _ => true end.
 
 Lemma native_own i s o : own_op i o = true -> Forall (fun x => own_op i x = true) (tops (snd (native s o))).
 Proof. intro H. unfold native. destruct (step (q_net s) o) as [n' r]. simpl. constructor; auto. Qed.
@@ -177,7 +177,7 @@ Qed.
 (* a node other than i never gains a qubit from such operations *)
 Lemma held_other_le s o i j : hid_inv s -> own_op i o = true -> j <> i -> held (fst (step s o)) j <= held s j.
 Proof.
-  intros HI Ho Hj. destruct o as [n|h g|h1 h2 g|h t|h ip c]; simpl in Ho.
+  intros HI Ho Hj. destruct o as [n|h g|h1 h2 g|h t|h ip c|n mq|n ow k]; simpl in Ho; try discriminate.
   - apply Nat.eqb_eq in Ho. subst n.
     destruct (snd (step s (ONew i))) as [v| | |k] eqn:E.
     + rewrite (held_new s i v j E). destruct (Nat.eqb_spec j i); [contradiction|lia].
@@ -186,7 +186,6 @@ Proof.
     + rewrite held_unchanged_unless_ok; [lia|]. intros v. rewrite E. discriminate.
   - rewrite held_gate1. lia.
   - rewrite held_gate2. lia.
-  - discriminate.
   - destruct ip; [rewrite held_meas_inplace; lia|].
     destruct (snd (step s (OMeas h false c))) as [v| | |k] eqn:E.
     + destruct (find_handle s h) as [[vi q]|] eqn:EF.
@@ -217,6 +216,17 @@ Qed.
 Theorem run_q_reachable caps i qs : reachable (q_net (run_q i (init_q caps) qs)).
 Proof. destruct (run_q_net_run i qs (init_q caps)) as [ops E]. exists caps, ops. exact E. Qed.
 
+(* ... reached without the client operation remote_add_register (the NetQASM backend never calls it, nor remote_new_qubit_inreg):
+   the hypothesis of Net/NonEmpty.v is met *)
+Lemma own_op_core i o : own_op i o = true -> core_op o.
+Proof. destruct o; simpl; intro H; try exact I; discriminate. Qed.
+
+Theorem run_q_reachable_core caps i qs : reachable_core (q_net (run_q i (init_q caps) qs)).
+Proof.
+  destruct (run_q_net_run_own i qs (init_q caps)) as [ops [E F]]. exists caps, ops. split; [|exact E].
+  eapply Forall_impl; [|exact F]. intros o Ho. apply (own_op_core i o Ho).
+Qed.
+
 (* C11, full population clause for the closed world of one host: when every application has been stopped, no node holds a
    qubit, simulates a qubit or keeps a register *)
 Theorem stop_leaves_nothing caps i qs : fresh_inits i (init_q caps) qs ->
@@ -237,5 +247,5 @@ Proof.
       change (q_net (init_q caps)) with (init_net caps). rewrite init_held in L. lia. }
   assert (V0 : forall j, virt (nth_node (q_net (run_q i (init_q caps) qs)) j) = []).
   { intro j. specialize (H0 j). unfold held in H0. destruct (virt _); [reflexivity|discriminate]. }
-  intro j. destruct (nothing_held_nothing_left _ (run_q_reachable caps i qs) V0 j) as (A & B & C). auto.
+  intro j. destruct (nothing_held_nothing_left _ (run_q_reachable_core caps i qs) V0 j) as (A & B & C). auto.
 Qed.
